@@ -1,4 +1,65 @@
-From HP Require Import Base.Prelude Base.Path Tar.Unpack.
-Example C12_smoke : resolve (S "./a//b/") = S "a/b" /\ resolve (S "/../x") = S "x" /\ resolve (S "../x") = S "../x".
-Proof. vm_compute. auto. Qed.
-Print Assumptions C12_smoke.
+(* C12 -- The tar FS presents exactly the archive's logical tree.
+   Two models of tar/fs.go's unpacking, both run against the implementation on every archive of the check:
+   [unpack] (Tar/Unpack.v) drives the key-value FS model step by step (resolvePath, memoised MkdirAll of the
+   parent, Mkdir-or-Chmod, OpenFile+Write); [aunpack] (Tar/Logical.v) is the same algorithm over an
+   abstract tree of element lists.  The SPECIFICATION is [logical]: the entry itself if the path is an
+   entry's name, a 0700 directory if it is a proper ancestor of one, nothing otherwise.
+   Proved for all archives (no bound on entries, depth, sizes): well-formed archive => [aunpack] succeeds
+   and builds exactly [logical], in every entry order; names normalise to the root, a path of real names,
+   or an escaping path, and an escaping parent stops the unpacking without creating anything.
+   Not in the models: the goroutine schedule of the background writers and the buffer pools (harness only). *)
+From HP Require Import Base.Prelude Base.Path Base.PathProofs KV.Types KV.FS KV.Run Tar.Unpack Tar.Logical
+  Tar.LogicalProofs Tar.UnpackProofs.
+From Coq Require Import Permutation.
+Open Scope N_scope.
+
+(* exactly the logical tree: every entry with its bytes and bits, every ancestor, and nothing else *)
+Theorem C12_unpacked_tree_is_the_logical_tree : forall es, wf es ->
+  exists t, aunpack [] es = Some t /\ forall p, a_lookup p t = logical es p.
+Proof. exact aunpack_is_logical. Qed.
+Print Assumptions C12_unpacked_tree_is_the_logical_tree.
+
+(* regardless of entry order: parents before, after, or never *)
+Theorem C12_entry_order_does_not_matter : forall es es', wf es -> Permutation es es' ->
+  exists t t', aunpack [] es = Some t /\ aunpack [] es' = Some t' /\ forall p, a_lookup p t = a_lookup p t'.
+Proof. exact aunpack_order_independent. Qed.
+Print Assumptions C12_entry_order_does_not_matter.
+
+Theorem C12_logical_tree_is_order_independent : forall es es' p,
+  NoDup (map aname es) -> Permutation es es' -> logical es p = logical es' p.
+Proof. exact logical_order_independent. Qed.
+Print Assumptions C12_logical_tree_is_order_independent.
+
+(* the boolean well-formedness test the check evaluates implies the hypothesis of the theorems *)
+Theorem C12_wellformed_test_is_sound : forall es, wf_b es = true -> wf es.
+Proof. exact wf_b_sound. Qed.
+Print Assumptions C12_wellformed_test_is_sound.
+
+(* name normalisation: the root, a path of real names, or a path that leaves the root *)
+Theorem C12_names_normalise : forall s, resolve s = dot \/ all_ok (resolve s) \/ escapes (resolve s).
+Proof. exact resolve_shape. Qed.
+Print Assumptions C12_names_normalise.
+
+Theorem C12_escaping_name_is_not_a_valid_path : forall s, escapes s -> valid_path s = false.
+Proof. exact escaping_is_invalid. Qed.
+Print Assumptions C12_escaping_name_is_not_a_valid_path.
+
+(* an entry whose parent lies outside the root makes unpacking fail there; it creates nothing anywhere *)
+Theorem C12_escaping_entry_fails_and_creates_nothing : forall before e after,
+  valid_path (path_dir (resolve (tname e))) = false ->
+  forall u1, unpack uinit before = (u1, None) ->
+  unpack uinit (before ++ e :: after) = (u1, Some (PathErr (path_dir (resolve (tname e))) EINVAL)).
+Proof. exact unpack_stops_at_escaping_entry. Qed.
+Print Assumptions C12_escaping_entry_fails_and_creates_nothing.
+
+(* non-vacuity: a children-before-parents archive is well formed and unpacks to its logical tree; the
+   escaping names of the check meet the hypotheses *)
+Example C12_nonvacuous :
+  let es := [AEFile [S "a"; S "b"; S "c.txt"] 420 [1; 2]; AEDir [S "a"] 493; AEFile [S "x"] 384 []] in
+  wf_b es = true
+  /\ (exists t, aunpack [] es = Some t /\ a_lookup [S "a"] t = Some (ADir 493)
+                /\ a_lookup [S "a"; S "b"] t = Some (ADir 448) /\ a_lookup [S "b"] t = None)
+  /\ valid_path (path_dir (resolve (S "../x"))) = false
+  /\ escapes (resolve (S "a/../../x"))
+  /\ resolve (S "./a//b/") = S "a/b".
+Proof. unfold escapes. vm_compute. repeat split; try reflexivity. eexists. repeat split; reflexivity. Qed.
